@@ -83,6 +83,11 @@ def spec_translate(text):
     if t.type == tokenize.OP and t.string == "$":
       nxt = toks[i + 1] if i + 1 < len(toks) else None
       prv = toks[i - 1] if i > 0 else None
+      j = i - 1                  # the previous significant token (a dot may sit on an earlier line)
+      while j >= 0 and toks[j].type in (tokenize.NL, tokenize.COMMENT, tokenize.NEWLINE):
+        j -= 1
+      if j >= 0 and toks[j].string == ".":
+        raise NotValid("unclear", "`$` after a dot")
       if prv is not None and ((prv.end == t.start and prv.type in (tokenize.NAME, tokenize.NUMBER))
                               or prv.string == "."):
         raise NotValid("unclear", "`$` glued to a preceding name / number, or after a dot")
